@@ -21,12 +21,15 @@ IsCol(c) == c # LF /\ c # CR
 \* <<line, column>> after consuming k slots in a forward scan.
 \* (a left fold over the consumed characters, which TLC evaluates iteratively: contents of any length;
 \* the end-of-input slot changes nothing)
-LC(s, k) ==
-  LET n == IF k > Len(s) THEN Len(s) ELSE k
-      step(p, i) == LET c == s[i]
-                        q == IF IsLine(CharAt(s, i - 1), c, CharAt(s, i + 1)) THEN <<p[1] + 1, 0>> ELSE p
-                    IN IF IsCol(c) THEN <<q[1], q[2] + 1>> ELSE q
-  IN FoldL(step, <<1, 0>>, [i \in 1 .. n |-> i])
+\* one step of the forward scan: <<line, column>> p after consuming slot i (1 <= i <= Len(s))
+LCStep(s, p, i) == LET c == s[i]
+                       q == IF IsLine(CharAt(s, i - 1), c, CharAt(s, i + 1)) THEN <<p[1] + 1, 0>> ELSE p
+                   IN IF IsCol(c) THEN <<q[1], q[2] + 1>> ELSE q
+\* p = LC(s, from)  =>  LCAdv(s, p, from, to) = LC(s, to)      (from <= to)
+LCAdv(s, p, from, to) ==
+  LET n == IF to > Len(s) THEN Len(s) ELSE to IN
+  IF from >= n THEN p ELSE FoldL(LAMBDA q, i : LCStep(s, q, i), p, [i \in 1 .. n - from |-> from + i])
+LC(s, k) == LCAdv(s, <<1, 0>>, 0, k)
 
 Min(a, b) == IF a < b THEN a ELSE b
 Max(a, b) == IF a > b THEN a ELSE b
